@@ -56,7 +56,21 @@ Boundary ==
     \cup {Tx1(PSet(1), Multi(CycleKeys(n), m, Rep(Good(1), m))) : n \in {16, 17}, m \in {1, 2}}
     \cup {Tx1(PSet(1), Multi(CycleKeys(n), 3, <<Good(1), Good(2), Good(3)>>)) : n \in {16, 17}}
 
-Small16 == TwoSets \cup Boundary
+\* MALFORMED SIGNATURE BLOBS (SigBase!Malformed): every shape, shaped for every key's type/scheme, offered to every key
+\*   single-key sets: the blob alone, and the blob followed by a good signature (only SigData[0] is examined)
+\*   multi-signature sets: the honest signature list of length m or m+1 (in key order) with ONE position replaced by
+\*   a blob - inside the first m (must spoil the set) or in the surplus position (never examined)
+MalAlpha == {Malformed(sh, k) : sh \in MalShapes, k \in K3}
+HonestSigs(ks, len) == [i \in 1..len |-> Good(ks[i])]
+MalSingle == {Single(k, <<b>>) : k \in K3, b \in MalAlpha} \cup {Single(k, <<b, Good(k)>>) : k \in K3, b \in MalAlpha}
+MalMultiOK(ks, m, len, pos) == m <= Len(ks) /\ len \in {m, m + 1} /\ len <= Len(ks) /\ pos <= len
+MalMultiSets == {Multi(ks, m, [HonestSigs(ks, len) EXCEPT ![pos] = b]) :
+                    <<ks, m, len, pos>> \in {q \in {<<1, 2>>, <<1, 2, 3>>} \X (1..3) \X (1..3) \X (1..3) :
+                                                 MalMultiOK(q[1], q[2], q[3], q[4])},
+                    b \in MalAlpha}
+MalTxs == {Tx1(PSet(1), s) : s \in MalSingle \cup MalMultiSets}
+
+Small16 == TwoSets \cup Boundary \cup MalTxs
 NextC16q == (phase = "idle" /\ (SubmitOneSet(SigSeqs2Q, SigSeqs3Q, KeyListsQ, Payers2) \/ \E t \in Small16 : Submit(t))) \/ Other
 NextC16t == (phase = "idle" /\ (SubmitOneSet(SigSeqs2T, SigSeqs3T, KeyLists, Payers1) \/ \E t \in Small16 : Submit(t))) \/ Other
 SpecC16q == Init /\ [][NextC16q]_vars
@@ -82,11 +96,19 @@ MultiOrder == MultiOrderN(2) \cup MultiOrderN(3)
 KDall == UNION {KD(k) : k \in K3}
 MultiEncSet(a, b, m) == [form |-> "multi", keys |-> <<a, b>>, m |-> m, menc |-> "op", n |-> 2, nenc |-> "op",
                          sigs |-> FirstSigs(<<a.v, b.v>>, m)]
-SmallC17 == SingleV \cup MultiOrder
+\* SURPLUS SIGNATURES: more signatures than the threshold (m < sn <= n, and sn = n + 1 where the list wraps around to
+\* the first key again); every key order incl. duplicates, canonical encodings.  VerifyMultiSignature examines the
+\* first m only, so these are accepted like their exact-threshold counterparts - and must name the same accounts.
+WrapSigs(ks, sn) == [i \in 1..sn |-> Good(ks[((i - 1) % Len(ks)) + 1])]
+MultiSurplusN(len) == {[form |-> "multi", keys |-> [i \in DOMAIN ks |-> CK(ks[i])], m |-> m, menc |-> "op",
+                        n |-> Len(ks), nenc |-> "op", sigs |-> WrapSigs(ks, sn)]
+                       : ks \in SeqsBetween(K3, len, len), m \in 1..len, sn \in 2..(len + 1)}
+MultiSurplus == {x \in MultiSurplusN(2) \cup MultiSurplusN(3) : Len(x.sigs) > x.m}
+SmallC17 == SingleV \cup MultiOrder \cup MultiSurplus
 SubmitC17 ==
     \/ \E s \in SmallC17 : Submit(Tx1(PSet(1), s))
     \/ \E a \in KDall, b \in KDall, m \in 1..2 : Submit(Tx1(PSet(1), MultiEncSet(a, b, m)))
-    \/ \E s \in SingleV \cup {x \in MultiOrder : x.nenc = "op"} :
+    \/ \E s \in SingleV \cup {x \in MultiOrder : x.nenc = "op"} \cup MultiSurplus :
            Submit([payer |-> PSet(1), sets |-> <<Single(1, <<Good(1)>>), s>>])
 NextC17 == (phase = "idle" /\ SubmitC17) \/ Other
 SpecC17 == Init /\ [][NextC17]_vars
@@ -99,11 +121,16 @@ SpecC17 == Init /\ [][NextC17]_vars
 SetT(s) == <<s.form, [i \in DOMAIN s.keys |-> <<s.keys[i].v, s.keys[i].enc, s.keys[i].push>>], s.m, s.menc, s.n, s.nenc,
              [j \in DOMAIN s.sigs |-> <<s.sigs[j].kind, s.sigs[j].by>>]>>
 TxT(t) == <<t.payer.kind, t.payer.i, [i \in DOMAIN t.sets |-> SetT(t.sets[i])]>>
+\* the accounts the scripts of an accepted transaction stand for (facts.accts), as descriptors the harness can
+\* realise with real keys: <<"single", <<k>>, 1>> | <<"multi", keys sorted, m>>
+AcctT(s) == LET p == Parse(ScriptOf(s)) IN
+            IF Len(p.keys) = 1 THEN <<"single", <<p.keys[1].v>>, 1>> ELSE <<"multi", SortKeys(KeyVals(p.keys)), p.m>>
 Row ==
     IF act'.name = "VerifyTransaction"
-    THEN <<"V", TxT(tx), mutated, verdict', facts'.txok, facts'.dup, facts'.exact, pre>>
+    THEN <<"V", TxT(tx), mutated, verdict', facts'.txok, facts'.dup, facts'.exact, pre, facts'.malex>>
     ELSE IF act'.name = "ExecFresh"
-    THEN <<"X", TxT(tx), raw' = signed', Cardinality(raw'), Cardinality(signed'), facts.canon>>
+    THEN <<"X", TxT(tx), raw' = signed', Cardinality(raw'), Cardinality(signed'), facts.canon,
+           [i \in DOMAIN tx.sets |-> AcctT(tx.sets[i])], signed' = facts.accts>>
     ELSE <<"M", TxT(tx), act'.name, IF act'.name = "MutateSig" THEN act'.i ELSE 0,
            IF act'.name = "MutateSig" THEN act'.j ELSE 0, TxT(tx')>>
 Edge == (act'.name \notin {"Submit", "GetSignatureAddressesEarly", "VerifyAgain"}) => PrintT(<<"ROW", ToJson(Row)>>)
